@@ -173,12 +173,20 @@ def build_case(r, tier):
     ofmt = r.choice(["dkvp", "nidx", "jsonl", "csv", "tsv", "json", "pprint", "xtab", "markdown", "dkvp", "csv", "json"])
     n = r.choice([ntargets, 2 * ntargets + 1, 5 * ntargets, 40, 97])
     n = max(1, min(n, 160))
+    bulk = r.chance(0.04)
+    if bulk:
+        # thousands of records to one or two targets: whatever batching a target's writer does is then exercised
+        ntargets = r.choice([1, 2])
+        n = r.choice([1100, 2100, 3100])
+        cap = 256
     odd = mode in ("split_g",) and r.chance(0.3)
     keys = (r.sample(ODD_KEYS, min(len(ODD_KEYS), ntargets)) + SAFE_KEYS)[:ntargets] if odd else SAFE_KEYS[:ntargets]
     pat, seq = key_sequence(r, keys, n)
     recs = [[("k", seq[i]), ("id", str(i + 1)), ("v", r.choice(gen.VOCAB_A)), ("w", str(r.randint(0, 999)))] for i in range(n)]
     case = {"kind": mode, "lru": cap, "ifmt": ifmt, "ofmt": ofmt, "pattern": pat, "recs": recs, "cseed": r.randint(1, 1 << 40),
             "batch": r.choice([None, 1, 2, 3, 7]), "nconf": 4 if tier == "quick" else 8, "pre": {}}
+    if bulk:
+        case.update({"batch": r.choice([None, 500, 100]), "nconf": 3, "bulk": True})
     oflags = OFMT[ofmt]
     if mode == "split_g":
         prefix = r.choice([None, "out", "pre.fix"])
@@ -390,11 +398,19 @@ def evaluate(case, chk):
         vd.runs.append(pilot)
         cfgs = []
         for i in range(case["nconf"]):
-            c = {"sched": random_sched(rng, pilot.goroutines), "batch": rng.choice([case["batch"], 1, 2, None]), "rtseed": rng.randint(1, 1 << 30),
+            c = {"sched": random_sched(rng, pilot.goroutines), "batch": rng.choice([case["batch"], 1, 2, None]) if not case.get("bulk") else case["batch"],
+                 "rtseed": rng.randint(1, 1 << 30),
                  "knobs": {"lru": case["lru"]}}
             if rng.chance(0.5):
                 c["knobs"]["bufw"] = rng.choice([16, 64, 4096])
             cfgs.append(c)
+        if case.get("bulk"):
+            # keep each target's writer goroutine behind its producer
+            writers = [g for g in pilot.goroutines if "file_output_handlers.go" in g]
+            for i, c in enumerate(cfgs[:2]):
+                if writers:
+                    c["sched"] = {"policy": "random", "seed": rng.randint(1, 1 << 40), "starve": "=" + writers[i % len(writers)]}
+                    c["knobs"] = {"lru": case["lru"]}
         case["configs"] = cfgs
     for cfg in case["configs"]:
         r = pool.run1(mkspec(with_batch(args, cfg.get("batch")), sched=cfg["sched"], files=files, knobs=cfg["knobs"], rtseed=cfg.get("rtseed", 1),
